@@ -769,7 +769,33 @@ func (c *Ctx) heapVar(s State, name string, sort *Sort) *Term {
 
 func (c *Ctx) fieldHeap(s State, st types.Type, u *types.Struct, i int) (string, *Term) {
 	name := c.fieldHeapName(st, u.Field(i).Name())
-	return name, c.heapVar(s, name, ArraySort(RefSort, c.sortOf(u.Field(i).Type())))
+	h := c.heapVar(s, name, ArraySort(RefSort, c.sortOf(u.Field(i).Type())))
+	c.closedHeapAxiom(name, u.Field(i).Type())
+	return name, h
+}
+
+// closedHeapAxiom: the heap at function entry is closed: every reference
+// stored in a field points below the allocation frontier of the entry state
+// (so objects allocated later are distinct from everything reachable before).
+func (c *Ctx) closedHeapAxiom(name string, ft types.Type) {
+	if c.declared["closed:"+name] || !c.declared[name+"@0"] || !c.declared["$alloc@0"] {
+		return
+	}
+	var body func(v *Term) *Term
+	switch ft.Underlying().(type) {
+	case *types.Pointer, *types.Map, *types.Chan:
+		body = func(v *Term) *Term { return mk("<", BoolSort, v, Var("$alloc@0", IntSort)) }
+	case *types.Slice:
+		body = func(v *Term) *Term { return mk("<", BoolSort, c.slBase(v), Var("$alloc@0", IntSort)) }
+	default:
+		return
+	}
+	c.declared["closed:"+name] = true
+	r := Var("r!q", IntSort)
+	h0 := Var(name+"@0", ArraySort(RefSort, c.sortOf(ft)))
+	// only objects that exist at entry: cells beyond the frontier are the
+	// (unconstrained) initial contents of objects allocated later
+	c.addHyp(Forall([]*Term{r}, Implies(mk("<", BoolSort, r, Var("$alloc@0", IntSort)), body(Select(h0, r)))))
 }
 
 func (c *Ctx) elemHeap(s State, elem types.Type) (string, *Term) {
